@@ -16,6 +16,7 @@ pub const FAULT_CLASSES: &[&str] = &[
     "RedeclarationAsType", "RedeclarationAsProcedure", "RedeclarationAsParameter", "RedeclarationAsVariable",
     "MustBeAReferenceParameter", "MainIsNotAProcedure", "MainMustNotHaveParameters", "MissingTrailingSemic", "MissingClosing",
     "UnaryMinusNonInteger", "AssignmentLevels", "UndefinedVariableNested", "NotAVariableNested", "UndefinedVariableInArgs",
+    "AnonymousArrayIdentity",
 ];
 
 /// Inject one violation of rule `class` into a well-typed program.  Returns the new token list and the
@@ -131,6 +132,28 @@ pub fn inject(rng: &mut Rng, prog: &Prog, class: &str) -> Option<(Vec<Tok>, usiz
         "MainIsNotAProcedure" => Some((vec!["type", "main", "=", "int", ";"], 1, 2)),
         _ => None,
     };
+    // an array type written in a parameter or variable declaration is a new type: nothing but that very
+    // parameter or variable has it, whatever the names and shapes of other declarations
+    if class == "AnonymousArrayIdentity" {
+        let tpl: Vec<&str> = match rng.below(4) {
+            0 => vec!["type", "tfa", "=", "array", "[", "2", "]", "of", "int", ";",
+                      "proc", "pfa", "(", "ref", "tfa", ":", "array", "[", "2", "]", "of", "int", ")", "{", "}",
+                      "proc", "pfb", "(", ")", "{", "var", "x", ":", "tfa", ";", "pfa", "(", "x", ")", ";", "}"],
+            1 => vec!["proc", "pfa", "(", "ref", "a", ":", "array", "[", "2", "]", "of", "int", ")", "{", "}",
+                      "proc", "pfb", "(", ")", "{", "var", "a", ":", "array", "[", "2", "]", "of", "int", ";", "pfa", "(", "a", ")", ";", "}"],
+            2 => vec!["proc", "pfa", "(", "ref", "a", ":", "array", "[", "3", "]", "of", "array", "[", "2", "]", "of", "int", ")", "{", "}",
+                      "proc", "pfb", "(", "ref", "a", ":", "array", "[", "3", "]", "of", "array", "[", "2", "]", "of", "int", ")", "{", "pfa", "(", "a", ")", ";", "}"],
+            _ => vec!["type", "tfa", "=", "array", "[", "2", "]", "of", "int", ";",
+                      "proc", "pfa", "(", "ref", "a", ":", "tfa", ")", "{", "}",
+                      "proc", "pfb", "(", ")", "{", "var", "tfa", ":", "array", "[", "2", "]", "of", "int", ";", "pfa", "(", "tfa", ")", ";", "}"],
+        };
+        // the culprit is the argument: the token after the last `(`
+        let lo = tpl.iter().rposition(|t| *t == "(")? + 1;
+        let at = toks.len();
+        let ins: Vec<Tok> = tpl.iter().map(|t| tok(t, nd)).collect();
+        toks.splice(at..at, ins);
+        return Some((toks, at + lo, at + lo + 1, "ArgumentsTypeMismatch".to_string()));
+    }
     if let Some((tpl, lo, hi)) = decl {
         let at = if class == "MainIsNotAProcedure" { 0 } else { toks.len() };
         let ins: Vec<Tok> = tpl.iter().map(|t| tok(t, nd)).collect();
